@@ -1203,7 +1203,7 @@ class LogixDriver(CIPDriver):
                     self._sequence,
                     parsed_tag["plc_tag"],
                     parsed_tag["tag_info"],
-                    -1,
+                    -1 * (1 + parsed_tag["request_id"]),
                     self._cfg["use_instance_ids"],
                 )
 
